@@ -54,6 +54,7 @@ COMMANDS = [
     ('annA', 'peer * announce route 10.1.0.0/24 next-hop 2.2.2.2', 'announce route 10.1.0.0/24 next-hop 2.2.2.2', 'done', ('add', '10.1.0.0/24', ALL)),
     ('wdrA', 'peer * withdraw route 10.1.0.0/24', 'withdraw route 10.1.0.0/24', 'done', ('del', '10.1.0.0/24', ALL)),
     ('annB1', 'peer 127.0.0.2 announce route 10.2.0.0/24 next-hop 2.2.2.2', 'neighbor 127.0.0.2 announce route 10.2.0.0/24 next-hop 2.2.2.2', 'done', ('add', '10.2.0.0/24', ('n1',))),
+    ('annN2', 'peer 127.0.0.3 announce route 10.2.1.0/24 next-hop 2.2.2.2', 'neighbor 127.0.0.3 announce route 10.2.1.0/24 next-hop 2.2.2.2', 'done', ('add', '10.2.1.0/24', ('n2',))),
     ('ann6', 'peer * announce ipv6 unicast 2001:db8:5::/48 next-hop 2001:db8::1', 'announce ipv6 unicast 2001:db8:5::/48 next-hop 2001:db8::1', 'done', ('add', '2001:db8:5::/48', ALL)),
     ('badval', 'peer * announce route 10.3.0.0/24 next-hop 2.2.2.2 med 99999999999', 'announce route 10.3.0.0/24 next-hop 2.2.2.2 med 99999999999', 'error', None),
     ('badsyntax', 'peer * announce route 10.3.0.0/33 next-hop 2.2.2.2', 'announce route 10.3.0.0/33 next-hop 2.2.2.2', 'error', None),
@@ -98,7 +99,7 @@ COMMANDS = [
 # the commands every sequence length is crossed over / the ones only crossed up to length 2 (with everything)
 CORE = ('annA', 'wdrA', 'annB1', 'ann6', 'badval', 'badsyntax', 'nonexthop', 'unknown', 'nopeer', 'eor', 'flush', 'ping')
 PARSE3 = ('nested', 'nestedbad', 'listbad', 'flow', 'flowbad', 'annA', 'annA2', 'annB1', 'wdrA', 'attrs2', 'attrsbad')
-STATEFUL = ('annA2', 'nested', 'nestedbad', 'listbad', 'flow', 'flowbad', 'clear', 'attrs2', 'attrsbad', 'split', 'inline', 'inline1', 'show', 'version', 'comment', 'empty', 'gstart', 'gend', 'bare', 'barewd', 'barebad', 'ackoff', 'ackon', 'silence')
+STATEFUL = ('annN2', 'annA2', 'nested', 'nestedbad', 'listbad', 'flow', 'flowbad', 'clear', 'attrs2', 'attrsbad', 'split', 'inline', 'inline1', 'show', 'version', 'comment', 'empty', 'gstart', 'gend', 'bare', 'barewd', 'barebad', 'ackoff', 'ackon', 'silence')
 BLOCK3 = ('gstart', 'gend', 'bare', 'barewd', 'barebad', 'annA', 'wdrA', 'unknown', 'ackoff', 'ackon', 'silence')
 BLOCK4 = ('gstart', 'gend', 'bare', 'barewd', 'barebad', 'annA')
 MANY = '\n'.join(f'peer * announce route 10.{100 + i // 250}.{i % 250}.0/24 next-hop 2.2.2.2' for i in range(120))
@@ -108,103 +109,117 @@ CMD = {c[0]: c for c in COMMANDS}
 TERMINALS = ('done', 'error')
 
 
-def model(seq, version):
-    """Sequential reference semantics of a command sequence written by one API process.
-    Returns (expected terminal replies: list of 'done' / 'error' / None (either), number of commands answered while
-    acknowledgements were off, final Adj-RIB-Out per neighbor, True when only refused commands were given)."""
+class _Svc:
+    def __init__(self, scope):
+        self.scope = tuple(scope)   # the neighbors which list this helper process
+        self.expected, self.who, self.unacked = [], [], 0
+        self.ack, self.grouping, self.buf = True, False, []
+
+
+def model_multi(items, version, scopes):
+    """Sequential reference semantics.  items: [(service, command name)] in the order the daemon reads them;
+    scopes: {service: neighbors that list it}.  Acknowledgement mode and group blocks are per service, the RIBs are
+    shared.  Returns ({service: _Svc}, ribs, nothing_accepted, adder)."""
     ribs = {n: set() for n in NEIGHBORS}
-    expected = []
-    who = []
-    unacked = 0
-    ack = True
-    grouping = False
-    buf = []
-    changed = False
-
+    svcs = {name: _Svc(sc) for name, sc in scopes.items()}
     adder = {}
+    changed = [False]
 
-    def apply(eff, c=None):
-        nonlocal changed
+    def apply(sv, eff, c):
+        """-> False when the command names only neighbors outside the scope of its service (nobody to apply it to)"""
         op = eff[0]
         if op == 'multi':
-            for e in eff[1]:
-                apply(e, c)
-            return
+            return all([apply(sv, e, c) for e in eff[1]])
         if op == 'clear':
-            for n in ribs:
+            for n in sv.scope:
                 ribs[n].clear()
-            changed = True
-            return
+            changed[0] = True
+            return True
         pfxs = eff[1] if isinstance(eff[1], tuple) else (eff[1],)
-        for n in eff[2]:
+        targets = [n for n in eff[2] if n in sv.scope]
+        if not targets:
+            return False
+        for n in targets:
             for pfx in pfxs:
-                changed = True
+                changed[0] = True
                 if op == 'add':
                     ribs[n].add(pfx)
                     adder[(n, pfx)] = c
                 else:
                     ribs[n].discard(pfx)
+        return True
 
-    for c in seq:
+    for svc, c in items:
+        sv = svcs[svc]
         line = CMD[c][1] if version == 6 else CMD[c][2]
         eff = CMD[c][4]
         if c == 'many':  # 120 announce lines, each a command of its own
-            if not grouping:
-                apply(eff, c)
-            if ack:
-                expected += ['done'] * 120
-                who += [c] * 120
+            if not sv.grouping:
+                apply(sv, eff, c)
+            if sv.ack:
+                sv.expected += ['done'] * 120
+                sv.who += [c] * 120
             else:
-                unacked += 120
+                sv.unacked += 120
             continue
         reply = CMD[c][3]
         kind = eff[0] if eff else None
         low = line.strip().lower()
-        if grouping and low.startswith(('announce', 'withdraw')):
+        if sv.grouping and low.startswith(('announce', 'withdraw')):
             # buffered until "group end"; it is acknowledged when buffered and takes effect (on every peer of the
             # process) when the block ends - a member that cannot be parsed has no effect
             if kind == 'bare-add':
-                buf.append((('add', eff[1], ALL), c))
+                sv.buf.append((('add', eff[1], ALL), c))
             elif kind == 'bare-del':
-                buf.append((('del', eff[1], ALL), c))
+                sv.buf.append((('del', eff[1], ALL), c))
             elif kind in ('add', 'del'):
-                buf.append(((kind, eff[1], ALL), c))
+                sv.buf.append(((kind, eff[1], ALL), c))
             reply = None if (eff is None or kind == 'bare-bad') else 'done'
         elif kind == 'gstart':
-            if grouping:
-                reply = 'error'
-            grouping = True if not grouping else grouping
-            if reply == 'done':
-                buf = []
-        elif kind == 'gend':
-            if not grouping:
+            if sv.grouping:
                 reply = 'error'
             else:
-                for e, bc in buf:
-                    apply(e, bc)
-                buf = []
-                grouping = False
+                sv.grouping = True
+                sv.buf = []
+        elif kind == 'gend':
+            if not sv.grouping:
+                reply = 'error'
+            else:
+                for e, bc in sv.buf:
+                    apply(sv, e, bc)
+                sv.buf = []
+                sv.grouping = False
         elif kind in ('bare-add', 'bare-del', 'bare-bad'):
             reply = 'error'
         elif kind == 'ackoff':
-            expected.append('done')  # this one is answered whatever the mode
-            who.append(c)
-            ack = False
+            sv.expected.append('done')  # this one is answered whatever the mode
+            sv.who.append(c)
+            sv.ack = False
             continue
         elif kind == 'ackon':
-            ack = True
+            sv.ack = True
         elif kind == 'silence':
-            ack = False
-            unacked += 1
+            sv.ack = False
+            sv.unacked += 1
             continue
         elif eff:
-            apply(eff, c)
-        if ack:
-            expected.append(reply)
-            who.append(c)
+            if not apply(sv, eff, c):
+                reply = 'error'
+        if sv.ack:
+            sv.expected.append(reply)
+            sv.who.append(c)
         else:
-            unacked += 1
-    return expected, who, unacked, ribs, not changed, adder
+            sv.unacked += 1
+    return svcs, ribs, not changed[0], adder
+
+
+def model(seq, version):
+    """One API process which every neighbor lists.  Returns (expected terminal replies: 'done' / 'error' / None (either),
+    the command each belongs to, number of commands given while acknowledgements were off, final Adj-RIB-Out per
+    neighbor, True when nothing was accepted, {(neighbor, prefix): command that announced it last})."""
+    svcs, ribs, nothing, adder = model_multi([('a', c) for c in seq], version, {'a': ALL})
+    sv = svcs['a']
+    return sv.expected, sv.who, sv.unacked, ribs, nothing, adder
 
 
 def match_replies(expected, unacked, got):
@@ -343,6 +358,94 @@ def run_sequence(args):
 
 
 # ------------------------------------------------------------------------------------------------
+# (C) two helper processes, each listed by its own set of neighbors
+# ------------------------------------------------------------------------------------------------
+CFG2 = """
+process svca { run /bin/cat; encoder json; }
+process svcb { run /bin/cat; encoder json; }
+neighbor 127.0.0.2 {
+  router-id 1.2.3.4; local-address 127.0.0.1; local-as 65001; peer-as 65002;
+  api { processes [ svca svcb ]; }
+  family { ipv4 unicast; ipv6 unicast; ipv4 flow; }
+}
+neighbor 127.0.0.3 {
+  router-id 1.2.3.4; local-address 127.0.0.1; local-as 65001; peer-as 65003;
+  api { processes [ svca ]; }
+  family { ipv4 unicast; ipv6 unicast; ipv4 flow; }
+}
+neighbor 127.0.0.4 {
+  router-id 5.6.7.8; local-address 127.0.0.1; local-as 65009; peer-as 65002;
+  api { processes [ svcb ]; }
+  family { ipv4 unicast; ipv6 unicast; ipv4 flow; }
+}
+neighbor 127.0.0.20 {
+  router-id 1.2.3.40; local-address 127.0.0.1; local-as 650010; peer-as 650020;
+  family { ipv4 unicast; ipv6 unicast; ipv4 flow; }
+}
+"""
+SCOPES = {'svca': ('n1', 'n2'), 'svcb': ('n1', 'n3')}
+MULTI2 = ('annA', 'wdrA', 'annB1', 'annN2', 'unknown', 'badval', 'gstart', 'bare', 'gend', 'clear', 'ackoff', 'ackon')
+MULTI3 = ('annA', 'wdrA', 'annN2', 'unknown', 'gstart', 'bare', 'gend', 'clear')
+
+
+def run_multi(items):
+    """items: ((service, command), ...) written one line at a time, each to the pipe of its own helper process."""
+    viols = []
+    with World(CFG2, env={'api.version': 6}) as wd:
+        wd.settle()
+        child = {name: [k for k, c in wd.children.items() if c is proc][0] for name, proc in wd.reactor.processes._process.items()}
+        if sorted(child) != sorted(SCOPES):
+            raise core.HarnessError(f'helper processes {sorted(child)}')
+        for svc, c in items:
+            wd.api_write((CMD[c][1] + '\n').encode(), child=child[svc])
+            wd.settle()
+        wd.advance(0.05)
+        wd.settle()
+        out = {svc: wd.api_output(child=child[svc]) for svc in child}
+        after = rib_state(wd)
+        exc = wd.loop_exceptions()
+    svcs, ribs, nothing, adder = model_multi(items, 6, SCOPES)
+    replies = {}
+    for svc, sv in svcs.items():
+        complete, partial = parse_replies(out[svc])
+        terms = [l for l in complete if l in TERMINALS]
+        replies[svc] = tuple(terms)
+        if partial:
+            viols.append(('multi:reply-unterminated', f'{svc}: reply stream ends with an unterminated line {partial[:60]!r}'))
+        bad = match_replies(sv.expected, sv.unacked, terms)
+        if bad is not None:
+            other = [x for x in svcs if x != svc][0]
+            viols.append((f'multi:ack-{bad[0]}', f'commands {list(items)}: process {svc} read the terminal replies {terms}, its own commands call for {sv.expected} (the other process {other} read {[l for l in parse_replies(out[other])[0] if l in TERMINALS]})'))
+    for n in NEIGHBORS:
+        cached = set(after[n][0])
+        if cached != ribs[n]:
+            inscope = [svc for svc, sc in SCOPES.items() if n in sc]
+            viols.append((f'multi:rib-differs-from-model:{"unlisted" if not inscope else "listed"}', f'commands {list(items)}: Adj-RIB-Out of {n} (listing {inscope}) holds {sorted(cached)}, the commands accepted from the processes it lists say {sorted(ribs[n])}'))
+    if exc:
+        viols.append(('loop-exception', exc[0][:160]))
+    return _dedup(viols), (tuple(sorted(replies.items())), tuple(sorted((n, tuple(sorted(after[n][0]))) for n in after)))
+
+
+def _dedup(viols):
+    seen_v = set()
+    outv = []
+    for sg, wh in viols:
+        if sg not in seen_v:
+            seen_v.add(sg)
+            outv.append((sg, wh))
+    return outv
+
+
+def multi_jobs(tier):
+    items2 = [(svc, c) for svc in SCOPES for c in MULTI2]
+    items3 = [(svc, c) for svc in SCOPES for c in MULTI3]
+    jobs = [(i,) for i in items2]
+    jobs += list(itertools.product(items2, repeat=2))
+    jobs += list(itertools.product(items3 if tier == 'quick' else items2, repeat=3))
+    return list(dict.fromkeys(jobs))
+
+
+# ------------------------------------------------------------------------------------------------
 # selectors
 # ------------------------------------------------------------------------------------------------
 TERM_VALUES = {
@@ -474,7 +577,7 @@ def run(ctx: core.Ctx) -> None:
     jobs = plan(ctx.tier)
     sels = selector_cases(ctx.tier)
     ctx.rule = (f'(A) every sequence of <= 2 commands (quick: 1 in 9 of the length-3 ones, thorough: all) over {len(COMMANDS)} commands (announce/withdraw to all or one peer, IPv6, out-of-range value, bad mask, missing next hop, unknown verb, no matching peer, eor, flush, ping), API v6 and v4 syntax; '
-                'every single cut (thorough: every pair of cuts) and byte-by-byte delivery for 4 two-command streams; (B) every selector: 7 address forms (one a truncated address, one neighbor whose every value extends those of another neighbor) x every subset of {local-as, peer-as, router-id} x 4 values each (one only the beginning of values in use), plain and bracket form, and bracket lists of two; '
+                'every single cut (thorough: every pair of cuts) and byte-by-byte delivery for 7 streams; (C) two helper processes listed by different neighbor sets: every sequence of <= 2 (process, command) items over 12 commands and of 3 over 8 (thorough: 12), each process must read exactly the replies to its own commands and only the neighbors listing the process may change; (B) every selector: 7 address forms (one a truncated address, one neighbor whose every value extends those of another neighbor) x every subset of {local-as, peer-as, router-id} x 4 values each (one only the beginning of values in use), plain and bracket form, and bracket lists of two; '
                 'non-trivial = distinct (reply sequence, final RIBs) outcome')
     ctx.assumptions += ['reference model: one terminal reply per command in order; refused commands change nothing; a selector matches a neighbor iff its address matches (or *) and every term equals the neighbor setting']
     pool = mp.Pool(min(16, os.cpu_count() or 1))
@@ -485,6 +588,14 @@ def run(ctx: core.Ctx) -> None:
             ctx.add_to_set('outcomes', outcome)
             for sig, what in viols:
                 ctx.violation(sig, f'[API v{job[2]}] {what}', {'kind': 'seq', 'seq': list(job[0]), 'cuts': list(job[1]), 'version': job[2]})
+        mjobs = multi_jobs(ctx.tier)
+        for job, (viols, outcome) in zip(mjobs, pool.imap(run_multi, mjobs, chunksize=8)):
+            ctx.count('executions')
+            ctx.count('transitions', len(job))
+            ctx.add_to_set('outcomes', outcome)
+            for sig, what in viols:
+                ctx.violation(sig, what, {'kind': 'multi', 'items': [list(x) for x in job]})
+        ctx.coverage_extra['two_process_sequences'] = len(mjobs)
         for job, (viols, outcome) in zip(sels, pool.imap(run_selector, sels, chunksize=8)):
             ctx.count('executions')
             ctx.count('transitions')
@@ -503,6 +614,9 @@ def run(ctx: core.Ctx) -> None:
 
 
 def replay(case):
+    if case['kind'] == 'multi':
+        viols, o = run_multi(tuple(tuple(x) for x in case['items']))
+        return [{'signature': s, 'what': wh} for s, wh in viols]
     if case['kind'] == 'seq':
         viols, o = run_sequence((tuple(case['seq']), tuple(case['cuts']), case['version']))
     else:
